@@ -303,6 +303,11 @@ func (c *Context) HandleEnvelop(envelop vivid.Envelop) {
 	currentState := atomic.LoadInt32(&c.state)
 	killingOrKilled := (currentState == killed) || (!envelop.System() && currentState != running) // 是否处于停止中或死亡状态
 	if killingOrKilled && !c.zombie {                                                             // 是否处于僵尸状态
+		// 根 Actor 已停止（或正在停止）时，投递给它的死信事件本身又会成为死信，
+		// 每处理一条就再产生一条，形成永不结束的循环并持续占用 CPU 与内存；此时直接丢弃。
+		if _, isDeathLetter := envelop.Message().(ves.DeathLetterEvent); isDeathLetter && c.parent == nil {
+			return
+		}
 		c.system.TellSelf(ves.DeathLetterEvent{
 			Envelope: envelop,
 			Time:     time.Now(),
